@@ -422,6 +422,14 @@ def _accept_cone(ctx, prim, r):
                 probs.append('the state is written again after the bounds check accepted it (edge bb%d -> bb%d)' % (a, b))
         r.inst('%s: every state enforce_bounds leaves behind was accepted by the bounds check or is the stored centre (%d writes, %d accepting edges)' % (
             name, len(writes), len(te)), ok=not probs, site=eb.loc(0))
+        if centre_stores:
+            # the stored centre left behind unchecked: see C11.same centre-return (distance(c, c) is not 0 in floating point)
+            r.inst('%s: the stored centre enforce_bounds falls back to is accepted by the bounds check' % name, ok=False, site=eb.loc(0))
+            r.violations.append(Violation(
+                'C11', 'C11.accept', eb.path, 'centre-fallback',
+                'enforce_bounds can leave the stored centre in the state without a bounds check on it: distance(c, c) is computed as '
+                '2 acos(c.c), about 4e-8 rad for a generic unit centre, so for a narrower cone the enforced state fails satisfies_bounds',
+                loc=eb.loc(0)))
         for o, pr in enumerate(dict.fromkeys(probs)):
             r.violations.append(Violation('C11', 'C11.accept', eb.path, 'cone-exit', pr, loc=eb.loc(0), ordinal=o))
 
@@ -946,8 +954,16 @@ def _cone_space(ctx, adt, ms, r_same, r_range):
                 val = fn.op_terms(st['rv']['fields'][0], (bi, si))
                 val = strip_clone(val)
                 if all(list(bound_reads(T(n))) and T(n) == T(list(bound_reads(T(n)))[0][0]) for n in val):
-                    # returning the cone centre itself: inside for any radius >= 0
-                    r_same.inst('%s: returns the cone centre at %s' % (su.path, fn.loc(bi, si)), ok=True, nontrivial=False)
+                    # returning the cone centre itself.  Over the reals it is inside for any radius >= 0; in floating point the
+                    # bounds check computes distance(c, c) = 2 acos(c.c), and c.c of a generic unit quaternion rounds to
+                    # 1 - 1.1e-16, i.e. 4.2e-8 rad: for a cone narrower than that the centre fails its own check (recorded
+                    # finding: findings/demo_main.rs c11_so3_point_cone)
+                    r_same.inst('%s: the cone centre returned at %s is accepted by the bounds check' % (su.path, fn.loc(bi, si)), ok=False, site=fn.loc(bi, si))
+                    r_same.violations.append(Violation(
+                        'C11', 'C11.same', su.path, 'centre-return',
+                        'the stored centre is returned as a sample without the bounds check: distance(c, c) is computed as 2 acos(c.c), '
+                        'about 4e-8 rad for a generic unit centre, so for a narrower cone (radius 0 is legal) the sample fails satisfies_bounds',
+                        loc=fn.loc(bi, si)))
                     continue
                 n_ok += 1
                 # guarded by predicate on exactly this value, or by satisfies_bounds(self, value)
